@@ -9,6 +9,7 @@ From AV Require Import Base.Bytes Base.Outcome Hash.HashModel Tree.Heap Tree.Ops
   Tree.Files Tree.FilesProofsBase Tree.FilesProofsProj Tree.FilesProofsFrame Tree.FilesProofsOps
   Tree.FilesProofsSet Tree.FilesProofsHole Tree.FilesProofsAdd Tree.FilesProofsStrip Tree.FilesProofsRemove
   Tree.FilesProofsExact Tree.FilesProofsLast.
+From AV Require Tree.Index.
 Open Scope string_scope.
 Open Scope list_scope.
 Open Scope N_scope.
@@ -203,10 +204,10 @@ Lemma del_exact w0 r0 k : Core w0 -> nth_error (roots w0) k = Some r0 ->
   forall l wk r w', TreeInv wk -> FilesInv T wk -> roots wk = roots w0 -> Jrel w0 wk ->
   (forall d, In d l -> exists dn p, w_nodes w0 d = Some dn /\ n_parent dn = PElem p /\ n_name dn <> SHORT T /\ Reach w0 r0 d) ->
   del_loop T l wk = Val (r, w') ->
-  Jrel wk w' /\ TreeInv w' /\ forall d, In d l -> cleared w' d.
+  Jrel wk w' /\ TreeInv w' /\ roots w' = roots wk /\ forall d, In d l -> cleared w' d.
 Proof.
   intros C0 Hr0. induction l as [|d rest IH]; intros wk r w' TI FI Hroots J Hl H; cbn [del_loop] in H.
-  - apply wret_inv in H as (_ & ->). split; [apply Jrel_refl|]. split; auto. intros d [].
+  - apply wret_inv in H as (_ & ->). split; [apply Jrel_refl|]. split; auto. split; auto. intros d [].
   - pose proof TI as (Ck & NOk & ROk).
     apply wbind_inv in H as [(dn & w1 & H1 & H) | (e0 & H1 & _)]; [|apply get_node_inv in H1 as (? & _ & [=] & _)].
     apply get_node_inv in H1 as (dnk & Hdnk & [= <-] & ->).
@@ -243,11 +244,171 @@ Proof.
         apply wfail_inv in H1 as (-> & _). injection Ep as ->.
         apply wret_inv in H2 as (_ & ->). split; [apply Jrel_refl|]. split; auto. split; auto. split; auto.
         exists dn. auto. }
-    destruct (IH w1 r w' TI1 FI1) as (J2 & TI2 & Cl2); auto; try congruence.
+    destruct (IH w1 r w' TI1 FI1) as (J2 & TI2 & R2 & Cl2); auto; try congruence.
     { eapply Jrel_trans; eauto. }
     { intros d' Hd'. apply Hl. right. exact Hd'. }
-    split; [eapply Jrel_trans; eauto|]. split; auto.
+    split; [eapply Jrel_trans; eauto|]. split; auto. split; [congruence|].
     intros d' [<-|Hd']; [eapply Jrel_cleared; eauto | auto].
+Qed.
+
+(* if i is still reached from the root after edges were only lost, so is every element on its old path *)
+Lemma pass_through w w' r : Core w -> (forall p c, lists w' p c -> lists w p c) -> (forall q, ~ lists w q r) ->
+  forall i, Reach w' r i -> forall a, Reach w a i -> Reach w' r a.
+Proof.
+  intros C Sh Hroot i H. induction H as [Ha|p c Hp IH Hl]; intros a Hai.
+  - destruct (reach_cases _ _ _ Hai) as [->|(q & _ & Hq)]; [constructor; auto|]. exfalso. eapply Hroot; eauto.
+  - destruct (reach_cases _ _ _ Hai) as [->|(q & Hq & Hlq)]; [eapply R_kid; eauto|].
+    apply IH. pose proof (Sh _ _ Hl) as Hl0.
+    destruct (c_up _ C _ _ Hl0) as (cn & Hcn & Hcp). destruct (c_up _ C _ _ Hlq) as (cn' & Hcn' & Hcp').
+    assert (q = p) by congruence. subst q. exact Hq.
+Qed.
+
+Lemma all_f_remove f s : (forall g, In g s -> g = f) -> set_remove f s = [].
+Proof.
+  intros H. destruct (set_remove f s) as [|g l] eqn:E; auto. exfalso.
+  assert (In g (set_remove f s)) as Hi by (rewrite E; left; reflexivity).
+  apply set_remove_in in Hi as (Hne & Hi). apply Hne. auto.
+Qed.
+
+Definition NoShortLocal (w : world) (x : model) : Prop :=
+  forall i n, Reach w (m_root x) i -> w_nodes w i = Some n -> n_name n = SHORT T -> n_files n = [].
+
+(* remove_file (another file remains): the elements that are still in the model afterwards are exactly those that
+   were attributed to some other file *)
+Lemma remove_file_exact_full m f w r w' x :
+  TreeInv w -> FilesInv T w ->
+  Known_root_last w (OpRemoveFile m f) = false -> Unowned w (OpRemoveFile m f) = false -> last_file w (OpRemoveFile m f) = false ->
+  NoShortLocal w x ->
+  m_remove_file T m f w = Val (r, w') -> model_b w m = Some x -> In f (m_files x) ->
+  TreeInv w' /\ roots w' = roots w /\
+  forall i, Reach w (m_root x) i -> (Reach w' (m_root x) i <-> exists g, g <> f /\ Attributed w i g).
+Proof.
+  intros TI FI HK HU HL NS H Hmx Hin. pose proof TI as (C & NO & _).
+  assert (forall i, Reach w (m_root x) i -> (exists g, g <> f /\ Attributed w i g) -> Reach w' (m_root x) i) as Keep.
+  { intros i Hri (g & Hg & Ha). apply (remove_file_keeps T m f w r w' x TI FI HK HU HL H Hmx i g Hri Hg Ha). }
+  destruct (remove_file_shape T m f w r w' TI FI HK HU HL H) as [(-> & Hnf)|(x0 & cur & w1 & w3 & td & r3 & Hx0 & Hxin & Hfin & Hn1 & ST1 & Hcur & Hrest & S & TI3 & FI3 & Hdel & Htd & Hcomp)].
+  { exfalso. apply (Hnf x Hmx). exact Hin. }
+  assert (x0 = x) by congruence. subst x0. pose proof (FI x Hxin) as FIx.
+  pose proof TI3 as (C3 & NO3 & _).
+  assert (same_tree w w3) as ST3 by (eapply same_tree_trans; [exact ST1|apply (st_tree _ _ _ _ _ S)]).
+  pose proof (fun a b => proj1 (reach_same_tree_iff w w3 a b ST3)) as R13.
+  pose proof (fun a b => proj2 (reach_same_tree_iff w w3 a b ST3)) as R31.
+  destruct ST3 as (_ & Hroots3 & _).
+  destruct (root_node _ _ C Hxin) as (rn & k0 & Hrn & Hrp).
+  assert (exists k, nth_error (roots w3) k = Some (m_root x)) as (k & Hk).
+  { rewrite Hroots3. apply In_nth_error. unfold roots. apply in_map. exact Hxin. }
+  (* an element of td is not the root, has an element parent and is not a SHORT-NAME *)
+  assert (forall d nd, w_nodes w d = Some nd -> n_files nd <> [] -> set_remove f (n_files nd) = [] -> d <> m_root x) as NotRoot.
+  { intros d nd Hnd Hne Hem ->. assert (nd = rn) by congruence. subst nd.
+    assert (cur = n_files rn) by (eapply Eff_local_inv; eauto). subst cur. contradiction. }
+  assert (forall a n, w_nodes w a = Some n -> exists fs, w_nodes w3 a = Some (set_files n fs)) as N3.
+  { intros a n Hn. destruct (st_node _ _ _ _ _ S a n) as (fs & H3 & _); [rewrite Hn1; auto|]. eauto. }
+  destruct (del_exact w3 (m_root x) k C3 Hk td w3 r3 w' TI3 FI3 eq_refl (Jrel_refl w3)) as (J & TI' & Rt' & Clr); auto.
+  { intros d Hd. destruct (Htd d Hd) as (Hrd & nd & Hnd & Hne & Hem).
+    destruct (N3 d nd Hnd) as (fs & H3). pose proof (NotRoot d nd Hnd Hne Hem) as Hdr.
+    destruct (reach_cases _ _ _ Hrd) as [->|(p & _ & Hl)]; [congruence|].
+    destruct (c_up _ C _ _ Hl) as (nd' & Hnd' & Hpp). assert (nd' = nd) by congruence. subst nd'.
+    exists (set_files nd fs), p. split; auto. split; [exact Hpp|]. split; [|apply R13; exact Hrd].
+    cbn. intros Hs. apply Hne. eapply NS; eauto. }
+  split; auto. split; [congruence|].
+  intros i Hri. split; [|apply Keep; auto]. intros Hri'.
+  assert (m_files x <> []) as Hne by (intros E; rewrite E in Hfin; destruct Hfin).
+  destruct (fi_eff _ _ _ FIx Hne i Hri) as (si & Hsi).
+  destruct (existsb (fun g => negb (g =? f)) si) eqn:Eex.
+  { apply existsb_exists in Eex as (g & Hg & Hgf). exists g. split.
+    - intros ->. rewrite N.eqb_refl in Hgf. discriminate.
+    - exists si. auto. }
+  exfalso.
+  assert (forall g, In g si -> g = f) as AllF.
+  { intros g Hg. destruct (N.eq_dec g f) as [|Hgf]; auto. exfalso.
+    assert (existsb (fun g => negb (g =? f)) si = true) as Ht.
+    { apply existsb_exists. exists g. split; auto. apply N.eqb_neq in Hgf. rewrite Hgf. reflexivity. }
+    congruence. }
+  destruct (Eff_owner _ _ _ Hsi) as (a & na & Ha & Hna & Hs & Hsne).
+  assert (Reach w (m_root x) a) as Hra by (eapply reach_ancs; eauto).
+  assert (Reach w a i) as Hai by (apply ancs_reach; auto; exists na; auto).
+  assert (set_remove f (n_files na) = []) as Hem by (rewrite Hs; apply all_f_remove; exact AllF).
+  assert (n_files na <> []) as Hnae by congruence.
+  pose proof (NotRoot a na Hna Hnae Hem) as Har.
+  assert (In a td) as Hatd by (eapply Hcomp; eauto).
+  pose proof (Clr a Hatd) as (na' & Hna' & Hpn & _).
+  destruct (del_outside T td w3 r3 w' TI3 FI3 Hdel) as (Shr & _).
+  assert (Reach w' (m_root x) a) as Hra'.
+  { apply (pass_through w3 w' (m_root x) C3) with (i := i); auto.
+    - intros p c (pn' & Hpn' & Hc).
+      assert (Reach w3 p p) as Hpp by (apply Shr; constructor; exists pn'; auto).
+      destruct (reach_alloc _ _ _ C3 Hpp) as (pn & Hpn3).
+      destruct (J _ _ Hpn3) as (pn'' & Hpn'' & [(_ & _ & K)|(_ & K)]); assert (pn'' = pn') by congruence; subst pn''.
+      + exists pn. split; auto.
+      + rewrite K in Hc. destruct Hc.
+    - intros q Hq. destruct (c_up _ C3 _ _ Hq) as (n1 & Hn1' & Hp1). destruct (c_roots _ C3 _ _ Hk) as (n2 & Hn2 & Hp2). congruence. }
+  destruct TI' as (C' & _).
+  destruct (reach_cases _ _ _ Hra') as [->|(q & _ & Hq)]; [congruence|].
+  destruct (c_up _ C' _ _ Hq) as (n1 & Hn1' & Hp1). congruence.
+Qed.
+
+Theorem remove_file_exact m f w r w' x :
+  TreeInv w -> FilesInv T w ->
+  Known_root_last w (OpRemoveFile m f) = false -> Unowned w (OpRemoveFile m f) = false -> last_file w (OpRemoveFile m f) = false ->
+  NoShortLocal w x ->
+  m_remove_file T m f w = Val (r, w') -> model_b w m = Some x -> In f (m_files x) ->
+  forall i, Reach w (m_root x) i -> (Reach w' (m_root x) i <-> exists g, g <> f /\ Attributed w i g).
+Proof. intros TI FI HK HU HL NS H Hmx Hin. apply (remove_file_exact_full m f w r w' x TI FI HK HU HL NS H Hmx Hin). Qed.
+
+(* ---------- the two caches: with agent-c04's exactness statements for the result world, a removed element has
+   neither an index entry nor a referrer entry ---------- *)
+Lemma reach_Reach w r0 i : allocated w r0 -> Index.reach T w r0 i -> Reach w r0 i.
+Proof.
+  intros Ha (q & H). induction H as [|p c q Hp IH (n & Hn & Hc)]; [constructor; auto|].
+  eapply R_kid; eauto. exists n. split; auto. apply in_elems. exact Hc.
+Qed.
+
+Lemma removed_not_mreach m f w r w' x :
+  TreeInv w -> FilesInv T w ->
+  Known_root_last w (OpRemoveFile m f) = false -> Unowned w (OpRemoveFile m f) = false -> last_file w (OpRemoveFile m f) = false ->
+  NoShortLocal w x ->
+  m_remove_file T m f w = Val (r, w') -> model_b w m = Some x -> In f (m_files x) ->
+  forall i, Reach w (m_root x) i -> ~ (exists g, g <> f /\ Attributed w i g) -> ~ Index.MReach T w' m i.
+Proof.
+  intros TI FI HK HU HL NS H Hmx Hin i Hri Hno (x' & Hx' & Hr').
+  destruct (remove_file_exact_full m f w r w' x TI FI HK HU HL NS H Hmx Hin) as ((C' & _) & Rt & Ex).
+  assert (m_root x' = m_root x) as Er.
+  { unfold Index.model_at in Hx'. unfold model_b in Hmx. rewrite nth_opt_error in Hx', Hmx.
+    assert (nth_error (roots w') (N.to_nat m) = Some (m_root x')) as H1 by (unfold roots; rewrite nth_error_map, Hx'; reflexivity).
+    assert (nth_error (roots w) (N.to_nat m) = Some (m_root x)) as H2 by (unfold roots; rewrite nth_error_map, Hmx; reflexivity).
+    congruence. }
+  apply Hno. apply (Ex i Hri). rewrite <- Er. apply reach_Reach; auto.
+  unfold Index.model_at in Hx'. rewrite nth_opt_error in Hx'.
+  assert (nth_error (roots w') (N.to_nat m) = Some (m_root x')) as H1 by (unfold roots; rewrite nth_error_map, Hx'; reflexivity).
+  destruct (c_roots _ C' _ _ H1) as (n & Hn & _). exists n; auto.
+Qed.
+
+Theorem remove_file_exact_index m f w r w' x :
+  TreeInv w -> FilesInv T w ->
+  Known_root_last w (OpRemoveFile m f) = false -> Unowned w (OpRemoveFile m f) = false -> last_file w (OpRemoveFile m f) = false ->
+  NoShortLocal w x ->
+  m_remove_file T m f w = Val (r, w') -> model_b w m = Some x -> In f (m_files x) ->
+  Index.IndexExact T w' m ->
+  forall i, Reach w (m_root x) i -> ~ (exists g, g <> f /\ Attributed w i g) ->
+  forall x' p, model_b w' m = Some x' -> assoc_get p (m_idents x') <> Some i.
+Proof.
+  intros TI FI HK HU HL NS H Hmx Hin IE i Hri Hno x' p Hx' Hp.
+  apply (removed_not_mreach m f w r w' x TI FI HK HU HL NS H Hmx Hin i Hri Hno).
+  apply (IE x' Hx') in Hp. destruct Hp as (Hm & _). exact Hm.
+Qed.
+
+Theorem remove_file_exact_refs m f w r w' x :
+  TreeInv w -> FilesInv T w ->
+  Known_root_last w (OpRemoveFile m f) = false -> Unowned w (OpRemoveFile m f) = false -> last_file w (OpRemoveFile m f) = false ->
+  NoShortLocal w x ->
+  m_remove_file T m f w = Val (r, w') -> model_b w m = Some x -> In f (m_files x) ->
+  Index.RefsExact T w' m ->
+  forall i, Reach w (m_root x) i -> ~ (exists g, g <> f /\ Attributed w i g) ->
+  forall x' p, model_b w' m = Some x' -> ~ In i (Index.origins_of x' p).
+Proof.
+  intros TI FI HK HU HL NS H Hmx Hin RE i Hri Hno x' p Hx' Hp.
+  apply (removed_not_mreach m f w r w' x TI FI HK HU HL NS H Hmx Hin i Hri Hno).
+  destruct (RE x' Hx' p) as (_ & Hiff). apply Hiff in Hp. destruct Hp as (Hm & _). exact Hm.
 Qed.
 
 End Exact2.
